@@ -57,8 +57,12 @@ package handshake
 //@      a.rcvAEAD != nil && a.nextRcvAEAD != nil && a.sendAEAD != nil && a.nextSendAEAD != nil && a.rttStats != nil && len(a.nonceBuf) >= 8 &&
 //@      a.keyPhase < 4611686018427387903 && a.numRcvdWithCurrentKey < 4611686018427387903 && a.numSentWithCurrentKey < 4611686018427387903 && a.invalidPacketCount < 4611686018427387903
 
+// The next generation of a traffic secret is HKDF-Expand-Label(secret, "quic ku") in QUIC v1 (RFC 9001 6.1) and
+// HKDF-Expand-Label(secret, "quicv2 ku") in QUIC v2 (RFC 9369 3.3.2), of the hash's size, from the secret handed in.
 //@ func (a *updatableAEAD) getNextTrafficSecret
 //@   props C05
+//@   ensures [key-update-label-of-the-version] called("hkdfExpandLabel") == 1 && callarg("hkdfExpandLabel", 0, 3) == ite(a.version == protocol.Version2, "quicv2 ku", "quic ku")
+//@   ensures [from-the-current-secret] samearray(callarg("hkdfExpandLabel", 0, 1), ts) && len(callarg("hkdfExpandLabel", 0, 1)) == len(ts) && len(callarg("hkdfExpandLabel", 0, 2)) == 0
 //@   modifies nothing
 
 //@ func (a *updatableAEAD) rollKeys
